@@ -132,10 +132,20 @@ structure Borrow where
   amountIn : Int
   /-- `AmountOut + InterestAccumulated.TruncateInt()` after the in-memory accrual the code performs first -/
   debt : Int
-  bridge : Bridge
+  /-- `BridgedAssetAmount.Amount` (zero for a same-pool borrow) -/
+  bridgedAmount : Int
+  /-- id of the asset whose denom is `BridgedAssetAmount.Denom` -/
+  bridgedAsset : Nat
+  /-- the lender's pool's assets with `AssetTransitType` 2 resp. 3 (0 = none) -/
+  firstTransit : Nat
+  secondTransit : Nat
   liquidated : Bool
-  /-- `LiquidationThreshold`, or `ELiquidationThreshold` when the pair is in e-mode (already resolved) -/
+  /-- the lend pair's `IsEModeEnabled` -/
+  emode : Bool
+  /-- `LiquidationThreshold` / `ELiquidationThreshold` of the collateral asset (`lendPair.AssetIn`) -/
   lt : Dec
+  elt : Dec
+  /-- `LiquidationThreshold` of the first / second transit asset -/
   ltFirst : Dec
   ltSecond : Dec
 deriving Repr, DecidableEq, Inhabited
@@ -146,12 +156,21 @@ def borrowRatio (e : Env) (b : Borrow) : Option Dec :=
   | some tin, some tout => if tin = 0 then none else some (Dec.quo tout tin)
   | _, _ => none
 
+/-- the branch of liquidate.go:320-356: no bridged amount ⇒ same pool; bridged denom = denom of the FIRST transit asset
+of the lender's pool ⇒ first; anything else ⇒ second -/
+def Borrow.bridge (b : Borrow) : Bridge :=
+  if b.bridgedAmount = 0 then .same
+  else if b.bridgedAsset == b.firstTransit then .first else .second
+
+/-- liquidate.go:300-303: the collateral asset's threshold, its e-mode threshold when the pair is in e-mode -/
+def Borrow.baseThreshold (b : Borrow) : Dec := if b.emode then b.elt else b.lt
+
 /-- the applicable threshold of the three cases -/
 def borrowThreshold (b : Borrow) : Dec :=
   match b.bridge with
-  | .same => b.lt
-  | .first => Dec.mul b.lt b.ltFirst
-  | .second => Dec.mul b.lt b.ltSecond
+  | .same => b.baseThreshold
+  | .first => Dec.mul b.baseThreshold b.ltFirst
+  | .second => Dec.mul b.baseThreshold b.ltSecond
 
 /-- `sdk.Dec.GT(currentCollateralizationRatio, threshold)` -/
 def borrowUnsafe (e : Env) (b : Borrow) : Bool :=
